@@ -12,7 +12,8 @@ region in document order followed by the footnote text of the region.
 All theorems quantify over every generator (any state type `σ`, any type of names `ν`), generator state, split
 level, filename template and document tree (any size, any depth) in the domain `InDomain`: the document node has
 one `document` element (level `DOCUMENT_LEVEL`), the effective split level is below `ENDSECTIONS_LEVEL` (the
-property ranges over −10..6) and no footnote is itself a sectioning unit; footnotes may be nested and may contain
+property ranges over −10..6), no footnote is itself a sectioning unit and a node with a unicode equivalent (`uni`) is a
+leaf that is neither unit nor footnote; footnotes may be nested and may contain
 units (`render_partition_tops` also admits the preamble nodes and whatever follows the `document` element).
 `render_fails_only_with_generator` characterises the hypothesis `render … = .ok files`, and
 `filenames_distinct_and_clean_with_Filenames` instantiates the generator with the C15 model of
@@ -43,6 +44,50 @@ def exGen : Gen Nat String := ⟨fun k _ => .ok (["index.html", "sect0001.html",
 
 def exTemplate : List Char := "index [$id, sect$num(4)]".toList
 
+/-- domain for an arbitrary list of children of the document node: every child is a `document` element or
+    contains no unit (preamble commands, trailing text), plus the conditions of `InDomain` -/
+def InDomainTops (lvl : Int) (tops : List Tree) : Bool :=
+  decide (lvl < ENDSECTIONS_LEVEL) && wfL lvl tops && tops.all (fun t => isDocRoot t || (units lvl t).isEmpty) &&
+    (decide (DOCUMENT_LEVEL ≤ lvl) || footFreeL lvl false tops)
+
+/-- **`render_partition` for the whole document node**: with any children of the document node in `InDomainTops`
+    (preamble nodes and other unit-free children are walked by `cacheFilenames` but neither rendered nor named),
+    the files written are exactly one per unit of the children, named in document order, each with the body text
+    of its region followed by the region's footnote text. -/
+theorem render_partition_tops {σ ν} (g : Gen σ ν) (s0 : σ) (split : Int) (tmpl : List Char) (tops : List Tree)
+    (files : List (File ν)) (hd : InDomainTops (effLevel split tmpl) tops = true)
+    (h : render g s0 split tmpl tops = .ok files) :
+    ∃ names s', run g s0 ((unitsL (effLevel split tmpl) tops).map fun u => req u.attrs) = .ok (names, s') ∧
+      names.length = (unitsL (effLevel split tmpl) tops).length ∧
+      List.Perm (files.map summary) (List.zipWith expected names (unitsL (effLevel split tmpl) tops)) := by
+  generalize hE : effLevel split tmpl = lvl at hd ⊢
+  simp only [InDomainTops, Bool.and_eq_true, Bool.or_eq_true, decide_eq_true_eq, List.all_eq_true] at hd
+  obtain ⟨⟨⟨hl, hw⟩, hall⟩, hcorner⟩ := hd
+  have hdn : filenameOf g lvl s0 documentNode = .ok (none, s0) := by
+    have hgt : (1001 : Int) > lvl := by simp only [ENDSECTIONS_LEVEL] at hl; omega
+    simp [filenameOf, documentNode, hgt]
+  simp only [render, hE, hdn] at h
+  cases ha : assignL g lvl s0 tops with
+  | error e => simp [ha] at h
+  | ok p =>
+    obtain ⟨atops, s'⟩ := p
+    simp only [ha, Except.ok.injEq] at h
+    obtain ⟨he, han, hr⟩ := assignL_spec g lvl _ s0 s' atops ha
+    have hw' : wfL lvl (eraseL atops) = true := by simp [he, hw]
+    obtain ⟨_, _, i4, i5⟩ := mainL lvl hl atops han hw'
+    have hall' : ∀ t ∈ atops, isDocRoot (erase t) = true ∨ units lvl (erase t) = [] := by
+      intro t ht
+      have hmem : erase t ∈ tops := by rw [← he]; exact mem_eraseL t atops ht
+      have := hall _ hmem
+      simpa only [Bool.or_eq_true, List.isEmpty_iff] using this
+    obtain ⟨k1, k2⟩ := tops_render lvl hl atops han hw' hall' (by rw [he]; exact hcorner)
+    rw [k2] at h
+    rw [k1, List.append_nil] at i5
+    subst h
+    rw [he] at i4 i5
+    simp only [unitReqsL] at hr
+    exact ⟨fileNamesL atops, s', hr, i4, i5⟩
+
 /-- **Main theorem.**  Whenever rendering succeeds, the files written are, up to the order of writing, exactly
     one per unit at or above the effective split level: the k-th unit in document order gets the k-th name the
     generator issues for the units' requests (in document order), its file opens with that unit's layout and
@@ -53,56 +98,15 @@ theorem render_partition {σ ν} (g : Gen σ ν) (s0 : σ) (split : Int) (tmpl :
     ∃ names s', run g s0 ((units (effLevel split tmpl) root).map fun u => req u.attrs) = .ok (names, s') ∧
       names.length = (units (effLevel split tmpl) root).length ∧
       List.Perm (files.map summary) (List.zipWith expected names (units (effLevel split tmpl) root)) := by
-  generalize hE : effLevel split tmpl = lvl at hd ⊢
-  simp only [InDomain, Bool.and_eq_true, Bool.or_eq_true, decide_eq_true_eq] at hd
-  obtain ⟨⟨⟨hroot, hl⟩, hw⟩, hcorner⟩ := hd
-  cases root with
-  | text m => simp [isDocRoot] at hroot
-  | elem a ks =>
-    have hdoc : a.level = DOCUMENT_LEVEL := by simpa [isDocRoot] using hroot
-    have hdn : filenameOf g lvl s0 documentNode = .ok (none, s0) := by
-      have hgt : (1001 : Int) > lvl := by simp only [ENDSECTIONS_LEVEL] at hl; omega
-      simp [filenameOf, documentNode, hgt]
-    simp only [render, hE, hdn] at h
-    cases ha : assignL g lvl s0 [.elem a ks] with
-    | error e => simp [ha] at h
-    | ok p =>
-      obtain ⟨atops, s'⟩ := p
-      simp only [ha, Except.ok.injEq] at h
-      obtain ⟨he, han, hr⟩ := assignL_spec g lvl _ s0 s' atops ha
-      have hw' : wfL lvl (eraseL atops) = true := by simp [he, hw]
-      obtain ⟨_, _, i4, i5⟩ := mainL lvl hl atops han hw'
-      cases atops with
-      | nil => simp at he
-      | cons r rest =>
-        cases rest with
-        | cons r2 rest2 => simp at he
-        | nil =>
-          cases r with
-          | text m => simp at he
-          | elem a' f ks' =>
-            simp only [eraseL_cons, erase_elem, eraseL_nil, List.cons.injEq, Tree.elem.injEq, and_true] at he
-            obtain ⟨rfl, hks⟩ := he
-            have hflt : [ATree.elem a' f ks'].filter ATree.isDocLevel = [ATree.elem a' f ks'] := by
-              simp [ATree.isDocLevel, hdoc]
-            rw [hflt] at h
-            -- nothing is written while the (unowned) footnote text of the root would be printed
-            have hfo : (footOutL [ATree.elem a' f ks']).2 = [] := by
-              rcases hcorner with hlow | hff
-              · have hu : a'.level ≤ lvl := by rw [hdoc]; exact hlow
-                simp only [annL_cons, ann_elem, annL_nil, Bool.and_true, Bool.and_eq_true, beq_iff_eq] at han
-                have hsome : f.isSome = true := by simpa [hu] using han.1
-                have hfoot : a'.foot = false := by
-                  simp only [wf_elem, Bool.and_eq_true] at hw
-                  simpa [isUnit, hu] using hw.1
-                have hlt : a'.level < ENDSECTIONS_LEVEL := lt_ends_of_le hl hu
-                simp [footOut_elem, claims, hsome, hlt, hfoot]
-              · exact (nofilesL lvl false _ han (by simpa [hks] using hff)).1
-            rw [hfo, List.append_nil] at i5
-            subst h
-            simp only [eraseL_cons, erase_elem, eraseL_nil, hks, unitsL_cons, unitsL_nil, List.append_nil] at i4 i5
-            simp only [unitReqsL, unitsL_cons, unitsL_nil, List.append_nil] at hr
-            exact ⟨fileNamesL [ATree.elem a' f ks'], s', hr, i4, i5⟩
+  have hdt : InDomainTops (effLevel split tmpl) [root] = true := by
+    simp only [InDomain, Bool.and_eq_true, Bool.or_eq_true, decide_eq_true_eq] at hd
+    obtain ⟨⟨⟨hroot, hl⟩, hw⟩, hcorner⟩ := hd
+    simp only [InDomainTops, Bool.and_eq_true, Bool.or_eq_true, decide_eq_true_eq, List.all_cons, List.all_nil, Bool.and_true,
+      wfL_cons, wfL_nil, footFreeL_cons, footFreeL_nil]
+    exact ⟨⟨⟨hl, hw⟩, Or.inl hroot⟩, hcorner⟩
+  obtain ⟨names, s', hr, hlen, hp⟩ := render_partition_tops g s0 split tmpl [root] files hdt h
+  simp only [unitsL_cons, unitsL_nil, List.append_nil] at hr hlen hp
+  exact ⟨names, s', hr, hlen, hp⟩
 
 /-- non-vacuity: the example document is in the domain at split level 0 and rendering it (names from a fixed
     supply) succeeds with two files -/
@@ -126,6 +130,13 @@ example : InDomain (effLevel 0 exTemplate) exDocNested = true := by decide
 example : (render exGen 0 0 exTemplate [exDocNested]).map (·.map summary) =
       .ok [("sect0002.html", some (.lop 5), [5]), ("sect0001.html", some (.lop 7), [7]),
            ("index.html", some (.lop 1), [1, 3, 2, 4, 6])] := by rfl
+
+/-- a node with a unicode equivalent (`\\S`, `\\ldots`, …: `node.str`, constructor `uni`) is in the domain as a leaf: it
+    is printed as that text, without template, children or file -/
+example : InDomain (effLevel 0 exTemplate)
+    (.elem { tag := 1, level := DOCUMENT_LEVEL, foot := false, id := none, title := some "T", ref := none, name := "document" }
+      [.text 1, .uni { tag := 2, level := 1001, foot := false, id := none, title := none, ref := none, name := "S" } [],
+       .text 2]) = true := by decide
 
 /-- **Each sectioning unit at or above the split level is written to its own file**: as many files as units,
     named (up to the order of writing) by the generator's answers to the units' requests in document order. -/
@@ -181,6 +192,9 @@ theorem owner_is_nearest_splitting_ancestor {σ ν} (g : Gen σ ν) (s0 : σ) (s
     | elem a ks =>
       have hdoc : a.level = DOCUMENT_LEVEL := by simpa [isDocRoot] using hroot
       simp [isUnit, hdoc, hlow]
+    | uni a ks =>
+      have hdoc : a.level = DOCUMENT_LEVEL := by simpa [isDocRoot] using hroot
+      simp [isUnit, hdoc, hlow]
   rcases owners_spec _ root hw cur m u hown with ⟨_, hm⟩ | ⟨un, hun, htag, hm⟩
   · rw [hnone] at hm; simp at hm
   · obtain ⟨n, hn⟩ := zipWith_expected_mem names _ hlen un hun
@@ -211,6 +225,9 @@ theorem every_text_exactly_once {σ ν} (g : Gen σ ν) (s0 : σ) (split : Int) 
     cases root with
     | text m => simp [isDocRoot] at hroot
     | elem a ks =>
+      have hdoc : a.level = DOCUMENT_LEVEL := by simpa [isDocRoot] using hroot
+      simp [isUnit, hdoc, hlow]
+    | uni a ks =>
       have hdoc : a.level = DOCUMENT_LEVEL := by simpa [isDocRoot] using hroot
       simp [isUnit, hdoc, hlow]
   rw [hnone, List.append_nil] at h2
@@ -336,50 +353,6 @@ theorem single_name_template_one_file {σ ν} (g : Gen σ ν) (s0 : σ) (split :
 example : hasBlankOrBracket (strip " index ".toList) = false ∧ InDomain (-10) exDoc = true := by decide
 
 /-! ### the document node as the parser builds it: preamble nodes, `document`, whatever follows -/
-
-/-- domain for an arbitrary list of children of the document node: every child is a `document` element or
-    contains no unit (preamble commands, trailing text), plus the conditions of `InDomain` -/
-def InDomainTops (lvl : Int) (tops : List Tree) : Bool :=
-  decide (lvl < ENDSECTIONS_LEVEL) && wfL lvl tops && tops.all (fun t => isDocRoot t || (units lvl t).isEmpty) &&
-    (decide (DOCUMENT_LEVEL ≤ lvl) || footFreeL lvl false tops)
-
-/-- **`render_partition` for the whole document node**: with any children of the document node in `InDomainTops`
-    (preamble nodes and other unit-free children are walked by `cacheFilenames` but neither rendered nor named),
-    the files written are exactly one per unit of the children, named in document order, each with the body text
-    of its region followed by the region's footnote text. -/
-theorem render_partition_tops {σ ν} (g : Gen σ ν) (s0 : σ) (split : Int) (tmpl : List Char) (tops : List Tree)
-    (files : List (File ν)) (hd : InDomainTops (effLevel split tmpl) tops = true)
-    (h : render g s0 split tmpl tops = .ok files) :
-    ∃ names s', run g s0 ((unitsL (effLevel split tmpl) tops).map fun u => req u.attrs) = .ok (names, s') ∧
-      names.length = (unitsL (effLevel split tmpl) tops).length ∧
-      List.Perm (files.map summary) (List.zipWith expected names (unitsL (effLevel split tmpl) tops)) := by
-  generalize hE : effLevel split tmpl = lvl at hd ⊢
-  simp only [InDomainTops, Bool.and_eq_true, Bool.or_eq_true, decide_eq_true_eq, List.all_eq_true] at hd
-  obtain ⟨⟨⟨hl, hw⟩, hall⟩, hcorner⟩ := hd
-  have hdn : filenameOf g lvl s0 documentNode = .ok (none, s0) := by
-    have hgt : (1001 : Int) > lvl := by simp only [ENDSECTIONS_LEVEL] at hl; omega
-    simp [filenameOf, documentNode, hgt]
-  simp only [render, hE, hdn] at h
-  cases ha : assignL g lvl s0 tops with
-  | error e => simp [ha] at h
-  | ok p =>
-    obtain ⟨atops, s'⟩ := p
-    simp only [ha, Except.ok.injEq] at h
-    obtain ⟨he, han, hr⟩ := assignL_spec g lvl _ s0 s' atops ha
-    have hw' : wfL lvl (eraseL atops) = true := by simp [he, hw]
-    obtain ⟨_, _, i4, i5⟩ := mainL lvl hl atops han hw'
-    have hall' : ∀ t ∈ atops, isDocRoot (erase t) = true ∨ units lvl (erase t) = [] := by
-      intro t ht
-      have hmem : erase t ∈ tops := by rw [← he]; exact mem_eraseL t atops ht
-      have := hall _ hmem
-      simpa only [Bool.or_eq_true, List.isEmpty_iff] using this
-    obtain ⟨k1, k2⟩ := tops_render lvl hl atops han hw' hall' (by rw [he]; exact hcorner)
-    rw [k2] at h
-    rw [k1, List.append_nil] at i5
-    subst h
-    rw [he] at i4 i5
-    simp only [unitReqsL] at hr
-    exact ⟨fileNamesL atops, s', hr, i4, i5⟩
 
 /-- non-vacuity: preamble command, the example document, trailing text -/
 example : InDomainTops (effLevel 0 exTemplate)
